@@ -3,10 +3,10 @@ package main
 import "fmt"
 
 // number of templates in harness/commonmark/h_tl.go
-const nTL = 83
+const nTL = 85
 
 // quick-tier subset of TL (at most two holes, cheap)
-var tlQuick = []int{0, 1, 2, 3, 5, 6, 7, 8, 9, 10, 11, 12, 13, 14, 15, 16, 17, 18, 19, 20, 22, 23, 24, 25, 27, 28, 29, 30, 32, 33, 34, 35, 39, 40, 44, 48, 49, 53, 54, 59, 60, 61, 62, 63, 64, 65, 66, 67, 68, 69, 70, 71, 72, 73, 74, 75, 76, 77, 78, 79, 80, 81, 82}
+var tlQuick = []int{0, 1, 2, 3, 5, 6, 7, 8, 9, 10, 11, 12, 13, 14, 15, 16, 17, 18, 19, 20, 22, 23, 24, 25, 27, 28, 29, 30, 32, 33, 34, 35, 39, 40, 44, 48, 49, 53, 54, 59, 60, 61, 62, 63, 64, 65, 66, 67, 68, 69, 70, 71, 72, 73, 74, 75, 76, 77, 78, 79, 80, 81, 82, 83, 84}
 
 func fJobs(h string, quickN []int, thoroughN []int, second int64, clausePanic string) []JobSpec {
 	var js []JobSpec
@@ -222,6 +222,9 @@ func propSpecs() map[string]*PropSpec {
 	}
 	for _, f := range []int64{1, 2, 4, 5} {
 		for _, i := range []int64{14, 15, 16, 17} {
+			if i >= 16 && (f == 1 || f == 4) {
+				continue // name look-ups over free bytes are slow under GFM; reject-all and {b,script} cover the scanner
+			}
 			c10.Jobs = append(c10.Jobs, JobSpec{Pkg: pkgCM, Harness: "H_C10", Params: []int64{2000 + i, f}, Bound: fmt.Sprintf("raw-HTML template %d, FilterTag=%s", i, fnames[f]), Tier: "quick"})
 		}
 	}
@@ -243,6 +246,10 @@ func propSpecs() map[string]*PropSpec {
 			tier = "thorough"
 		}
 		for p := int64(0); p < 5; p++ {
+			if t == 23 && p == 0 && tier == "quick" {
+				c17.Jobs = append(c17.Jobs, JobSpec{Pkg: pkgCM, Harness: "H_C17", Params: []int64{t, p}, Bound: fmt.Sprintf("HTML template %d, predicate %s", t, pnames[p]), Tier: "thorough"})
+				continue
+			}
 			c17.Jobs = append(c17.Jobs, JobSpec{Pkg: pkgCM, Harness: "H_C17", Params: []int64{t, p}, Bound: fmt.Sprintf("HTML template %d, predicate %s", t, pnames[p]), Tier: tier})
 		}
 	}
@@ -279,6 +286,9 @@ func propSpecs() map[string]*PropSpec {
 	for _, k := range []int64{8190, 8191, 8192} {
 		cm(c08, "H_C08_big", k, 2, fmt.Sprintf("one free byte + %d bytes of CR LF pairs + \"a\\nb\" (CRLF across the chunk boundary)", k), "thorough")
 	}
+	for _, t := range []int64{11, 12, 13} {
+		cm(c08, "H_C08_cut", t, 0, fmt.Sprintf("C01 template %d (CRLF / bare-CR document with blank-line runs) cut into two reads at every position", t), "quick")
+	}
 	cm(c08, "H_C08", 4, 0, "A(4), all read schedules", "thorough")
 	cm(c08, "H_C08", 4, 1, "A(4), all fault points", "thorough")
 	cm(c08, "H_C08", 103, 0, "F(3), all read schedules", "thorough")
@@ -297,7 +307,7 @@ func propSpecs() map[string]*PropSpec {
 	for n := int64(1); n <= 2; n++ {
 		cm(c16, "H_C16_cut", 0, n, fmt.Sprintf("F(%d), the document arriving in two reads cut at every position", n), "quick")
 	}
-	for _, i := range []int64{29, 39, 44, 53} {
+	for _, i := range []int64{29, 39, 53} {
 		cm(c16, "H_C16_cut", 6, i, fmt.Sprintf("TL[%d] with CRLF line endings, two reads cut at every position", i), "quick")
 		cm(c16, "H_C16_cut", 7, i, fmt.Sprintf("TL[%d] with bare-CR line endings, two reads cut at every position", i), "quick")
 	}
@@ -348,10 +358,10 @@ func propSpecs() map[string]*PropSpec {
 	cm(c09, "H_C09_list", 0, 1, "list clause, F(1) x 6 markers x 4 widths", "quick")
 	cm(c09, "H_C09_list", 0, 2, "list clause, F(2) x 6 markers x 4 widths", "quick")
 	cm(c09, "H_C09_list", 0, 3, "list clause, F(3) x 6 markers x 4 widths", "thorough")
-	for _, i := range []int64{9, 13, 14, 20, 29, 33, 34, 39, 40, 51, 53, 59, 61, 73, 76, 82} {
+	for _, i := range []int64{9, 13, 14, 20, 29, 33, 34, 39, 40, 51, 53, 59, 61, 73, 76, 82, 83, 84} {
 		cm(c09, "H_C09_quote", 1, i, fmt.Sprintf("quote clause, multi-line template TL[%d]", i), "quick")
 	}
-	for _, i := range []int64{9, 20, 33, 39} {
+	for _, i := range []int64{9, 20, 33, 39, 59, 83, 84} {
 		cm(c09, "H_C09_list", 1, i, fmt.Sprintf("list clause, multi-line template TL[%d]", i), "quick")
 	}
 	cm(c09, "H_C09_quote", 8, 10, "quote clause, definition + full reference with a 10-line label of 989 characters (below the 999 limit)", "quick")
@@ -373,6 +383,12 @@ func propSpecs() map[string]*PropSpec {
 	for n := int64(1); n <= 5; n++ {
 		cm(c11, "H_C11", n, 8, fmt.Sprintf("all sequences of %d units over 8 classes (incl. NBSP, EM DASH, e-acute)", n), "quick")
 	}
+	for n := int64(7); n <= 8; n++ {
+		cm(c11, "H_C11", n, 3, fmt.Sprintf("all sequences of %d units over {*, _, letter/digit} (delimiter-dense strings)", n), "quick")
+	}
+	cm(c11, "H_C11", 7, 4, "all sequences of 7 units over {*, _, letter/digit, space}", "quick")
+	cm(c11, "H_C11", 9, 3, "all sequences of 9 units over {*, _, letter/digit}", "thorough")
+	cm(c11, "H_C11", 8, 4, "all sequences of 8 units over {*, _, letter/digit, space}", "thorough")
 	cm(c11, "H_C11", 7, 5, "all sequences of 7 units over the 5 ASCII classes", "thorough")
 	cm(c11, "H_C11", 6, 8, "all sequences of 6 units over 8 classes", "thorough")
 	cm(c11, "H_C11", 8, 5, "all sequences of 8 units over the 5 ASCII classes", "thorough")
@@ -395,7 +411,7 @@ func propSpecs() map[string]*PropSpec {
 	for n := int64(1); n <= 3; n++ {
 		cm(c12, "H_C12_closure", 0, n, fmt.Sprintf("closure clauses on F(%d)", n), "quick")
 	}
-	for _, i := range []int64{5, 6, 8, 10, 11, 12, 13, 14, 15} {
+	for _, i := range []int64{5, 6, 8, 10, 11, 12, 13, 14, 15, 83, 84} {
 		cm(c12, "H_C12_closure", 1, i, fmt.Sprintf("closure clauses on TL[%d]", i), "quick")
 	}
 	cm(c12, "H_C12_closure", 1, 42, "closure clauses on TL[42]", "thorough")
@@ -433,11 +449,15 @@ func propSpecs() map[string]*PropSpec {
 		cm(c06, "H_C06_verbatim", k, 0, fmt.Sprintf("fenced code with %d free content bytes", k), "quick")
 		cm(c06, "H_C06_verbatim", k, 1, fmt.Sprintf("indented code with %d free content bytes", k), "quick")
 	}
+	for f, nm := range []string{"top level", "'>' block quote", "'-' list item", "'> ' block quote", "block quote inside a list item"} {
+		cm(c06, "H_C06_tabs", int64(f), 0, "tab/column arithmetic: k spaces, one or two tabs, m spaces (k, m in 0..3) behind "+nm, "quick")
+	}
 	cm(c06, "H_C06", 1, 0, "documents of <= 1 node, LF, reduced menus", "quick")
 	cm(c06, "H_C06", 2, 0, "documents of <= 2 nodes, LF, reduced menus", "quick")
 	cm(c06, "H_C06", 2, 1, "documents of <= 2 nodes, CRLF, reduced menus", "quick")
 	cm(c06, "H_C06", 2, 2, "documents of <= 2 nodes, LF, full menus", "thorough")
 	cm(c06, "H_C06", 3, 0, "documents of <= 3 nodes, LF, reduced menus", "quick")
+	cm(c06, "H_C06", 3, 4, "documents of <= 3 nodes, LF, reduced menus, plain inline content (words and line breaks only)", "thorough")
 	cm(c06, "H_C06", 3, 1, "documents of <= 3 nodes, CRLF, reduced menus", "thorough")
 	cm(c06, "H_C06", 3, 2, "documents of <= 3 nodes, LF, full menus", "thorough")
 	cm(c06, "H_C06", 4, 0, "documents of <= 4 nodes, LF, reduced menus", "thorough")
@@ -452,6 +472,9 @@ func propSpecs() map[string]*PropSpec {
 	for n := int64(1); n <= 3; n++ {
 		cm(c19, "H_C19", 0, n, fmt.Sprintf("Render x12 x2 + Walk on frozen trees of F(%d)", n), "quick")
 		fm(c19, "H_C19_format", n, 0, fmt.Sprintf("Format x2 on frozen trees of F(%d)", n), "quick")
+	}
+	for d := int64(0); d < 6; d++ {
+		cm(c19, "H_C19_reentrant", d, 0, fmt.Sprintf("document %d: a walk and a render nested inside a callback of another walk / render of the same tree (after an aborted walk), nesting point solver-chosen", d), "quick")
 	}
 	cm(c19, "H_C19_parse", 1, 1, "Parse(in2), Parse(in1), Parse(in2) with frozen globals, |in1|=|in2|=1", "quick")
 	cm(c19, "H_C19_parse", 2, 1, "same, |in1|=2, |in2|=1", "quick")
@@ -474,16 +497,16 @@ func propSpecs() map[string]*PropSpec {
 		fm(c20, "H_C20_total", n, 6, fmt.Sprintf("F(%d), writer failing at call k in 1..6", n), "quick")
 	}
 	fm(c20, "H_C20_total", 4, 12, "F(4), writer failing at call k in 1..12", "thorough")
-	for _, k := range []int64{1, 2, 8, 9} {
+	for _, k := range []int64{1, 2, 9} {
 		fm(c20, "H_C20_marker", k, 0, fmt.Sprintf("ordered item with a %d-digit number (digits free) + second paragraph", k), "quick")
 	}
-	fm(c20, "H_C20_marker", 9, 1, "ordered item with a 9-digit number + fenced code", "quick")
-	fm(c20, "H_C20_marker", 9, 2, "ordered item with a 9-digit number + nested bullet list", "quick")
-	for k := int64(3); k <= 7; k++ {
+	fm(c20, "H_C20_marker", 9, 1, "ordered item with a 9-digit number + fenced code", "thorough")
+	fm(c20, "H_C20_marker", 9, 2, "ordered item with a 9-digit number + nested bullet list", "thorough")
+	for k := int64(3); k <= 8; k++ {
 		fm(c20, "H_C20_marker", k, 0, fmt.Sprintf("ordered item with a %d-digit number + second paragraph", k), "thorough")
 	}
 	fm(c20, "H_C20_marker", 9, 3, "ordered item with a 9-digit number + block quote", "thorough")
-	for _, nn := range [][2]int64{{0, 3}, {1, 4}, {2, 5}, {3, 5}} {
+	for _, nn := range [][2]int64{{0, 3}, {1, 4}, {2, 5}, {3, 5}, {0, 6}} {
 		fm(c20, "H_C20_fence", nn[0], nn[1], fmt.Sprintf("fenced code whose content lines are %d and %d free bytes over {backtick, space, tab, a}", nn[0], nn[1]), "quick")
 	}
 	fm(c20, "H_C20_fence", 5, 6, "fenced code whose content lines are 5 and 6 free bytes over {backtick, space, tab, a}", "thorough")
